@@ -234,3 +234,256 @@ Proof.
     subst j. unfold clampz. destruct (q + q_uvdc qh <? 0) eqn:E1; [lia|].
     destruct (127 <? q + q_uvdc qh) eqn:E2; destruct (117 <? q + q_uvdc qh) eqn:E3; lia.
 Qed.
+
+(** * Filter strengths: precomputeFilterStrengths = 9.6 / 15.2, for every header *)
+Lemma go_ilevel_eq level sharp : go_ilevel level sharp = lf_interior level sharp.
+Proof.
+  unfold go_ilevel, lf_interior. cbv zeta.
+  destruct (0 <? sharp) eqn:E0; [|reflexivity].
+  destruct (4 <? sharp) eqn:E4.
+  - destruct (9 - sharp <? asr level 2) eqn:E9; destruct (Z.min (asr level 2) (9 - sharp) <? 1) eqn:E1;
+      destruct (9 - sharp <? 1) eqn:E2; destruct (asr level 2 <? 1) eqn:E3; lia.
+  - destruct (9 - sharp <? asr level 1) eqn:E9; destruct (Z.min (asr level 1) (9 - sharp) <? 1) eqn:E1;
+      destruct (9 - sharp <? 1) eqn:E2; destruct (asr level 1 <? 1) eqn:E3; lia.
+Qed.
+
+Lemma go_level_eq h seg is4 : go_level h seg is4 = lf_mb_level false h seg is4.
+Proof.
+  unfold go_level, lf_mb_level, lf_base_level, clampz. cbv zeta.
+  destruct (sg_enabled (fh_seg h)); destruct (sg_abs (fh_seg h));
+    destruct (lf_delta_enabled (fh_lf h)); destruct is4;
+    rewrite ?(Z.add_comm (nthZ (sg_lf (fh_seg h)) seg 0) (lf_level (fh_lf h))); reflexivity.
+Qed.
+
+Theorem filter_strength_table_eq : forall h seg is4,
+  go_fstrength h seg is4 =
+  let p := lf_mb_params false h seg is4 in
+  if lp_level p =? 0 then (0, 0, 0) else (subedge_limit p, lp_interior p, lp_hev p).
+Proof.
+  intros h seg is4. unfold go_fstrength, lf_mb_params, subedge_limit, lf_hev_thresh. cbv zeta.
+  cbn [lp_level lp_interior lp_hev].
+  rewrite go_level_eq, go_ilevel_eq.
+  set (L := lf_mb_level false h seg is4).
+  assert (HL : 0 <= L <= 63) by (unfold L, lf_mb_level; apply clampz_range; lia).
+  destruct (0 <? L) eqn:E0; destruct (L =? 0) eqn:E1; try lia; [|reflexivity].
+  f_equal. f_equal. lia.
+Qed.
+
+(** the only difference between the two readings of the level computation:
+    they agree whenever the segment-adjusted level is already within 0..63 *)
+Theorem filter_level_mid_clamp_agree : forall h seg is4,
+  0 <= lf_base_level h seg <= 63 ->
+  lf_mb_level true h seg is4 = lf_mb_level false h seg is4.
+Proof.
+  intros h seg is4 H. unfold lf_mb_level. cbv zeta.
+  replace (clampz 0 63 (lf_base_level h seg)) with (lf_base_level h seg); [reflexivity|].
+  unfold clampz. destruct (lf_base_level h seg <? 0) eqn:E1; [lia|].
+  destruct (63 <? lf_base_level h seg) eqn:E2; lia.
+Qed.
+
+(** * Clip tables = clamp over their whole index range (finite, complete) *)
+Definition tab_ok (t : list Z) (off lo hi : Z) (f : Z -> Z) : bool :=
+  forallb (fun v => match tab_get t off v with Some x => x =? f v | None => false end)
+          (zrange lo (hi - lo + 1)).
+
+Lemma clip_tables_sweep :
+  tab_ok go_sclip1_tab 893 (-893) 892 (clampz (-128) 127) &&
+  tab_ok go_sclip2_tab 112 (-112) 112 (clampz (-16) 15) &&
+  tab_ok go_clip1_tab 255 (-255) 511 (clampz 0 255) &&
+  tab_ok go_abs0_tab 255 (-255) 255 Z.abs = true.
+Proof. vm_compute. reflexivity. Qed.
+
+Lemma tab_ok_spec t off lo hi f v :
+  tab_ok t off lo hi f = true -> lo <= v <= hi -> tab_get t off v = Some (f v).
+Proof.
+  unfold tab_ok. intros H Hv.
+  pose proof (proj1 (forallb_forall _ _) H v (in_zrange lo (hi - lo + 1) v ltac:(lia) ltac:(lia))) as Hx.
+  cbv beta in Hx. destruct (tab_get t off v); [|discriminate]. apply Z.eqb_eq in Hx. congruence.
+Qed.
+
+Theorem clip_tables_eq_clamp :
+  (forall v, -893 <= v <= 892 -> tab_get go_sclip1_tab 893 v = Some (clampz (-128) 127 v)) /\
+  (forall v, -112 <= v <= 112 -> tab_get go_sclip2_tab 112 v = Some (clampz (-16) 15 v)) /\
+  (forall v, -255 <= v <= 511 -> tab_get go_clip1_tab 255 v = Some (clampz 0 255 v)) /\
+  (forall v, -255 <= v <= 255 -> tab_get go_abs0_tab 255 v = Some (Z.abs v)).
+Proof.
+  pose proof clip_tables_sweep as H. rewrite !andb_true_iff in H. destruct H as [[[H1 H2] H3] H4].
+  repeat split; intros v Hv; eapply tab_ok_spec; eauto.
+Qed.
+
+(** * Loop-filter arithmetic: the Go (libwebp-style, unsigned, table-clamped)
+    formulas = the RFC's signed formulation, for all 8-bit samples and all limits *)
+Definition bytes8 (l : list Z) : Prop := length l = 8%nat /\ Forall (fun x => 0 <= x <= 255) l.
+
+Lemma bytes8_inv l : bytes8 l -> exists p3 p2 p1 p0 q0 q1 q2 q3,
+  l = [p3; p2; p1; p0; q0; q1; q2; q3] /\
+  0 <= p3 <= 255 /\ 0 <= p2 <= 255 /\ 0 <= p1 <= 255 /\ 0 <= p0 <= 255 /\
+  0 <= q0 <= 255 /\ 0 <= q1 <= 255 /\ 0 <= q2 <= 255 /\ 0 <= q3 <= 255.
+Proof.
+  intros [Hl Hf].
+  do 8 (destruct l as [|? l]; [discriminate Hl|]). destruct l; [|discriminate Hl].
+  repeat match goal with H : Forall _ (_ :: _) |- _ => inversion H; clear H; subst end.
+  do 8 eexists. split; [reflexivity|]. repeat split; lia.
+Qed.
+
+Lemma needs_filter_eq E p1 p0 q0 q1 :
+  go_needs_filter (2 * E + 1) p1 p0 q0 q1 = lf_edge_ok E p1 p0 q0 q1.
+Proof.
+  unfold go_needs_filter, lf_edge_ok, asr. change (2 ^ 1) with 2.
+  destruct (Z.leb_spec (4 * Z.abs (p0 - q0) + Z.abs (p1 - q1)) (2 * E + 1));
+    destruct (Z.leb_spec (Z.abs (p0 - q0) * 2 + Z.abs (p1 - q1) / 2) E); try reflexivity; lia.
+Qed.
+
+Lemma abs_sub_comm a b : Z.abs (a - b) = Z.abs (b - a).
+Proof. lia. Qed.
+
+Lemma hev_eq t p1 p0 q0 q1 : go_hev t p1 p0 q0 q1 = lf_hev t p1 p0 q0 q1.
+Proof. unfold go_hev, lf_hev. rewrite (abs_sub_comm q0 q1). reflexivity. Qed.
+
+Lemma needs_filter2_eq E I p3 p2 p1 p0 q0 q1 q2 q3 :
+  go_needs_filter2 (2 * E + 1) I p3 p2 p1 p0 q0 q1 q2 q3 = lf_filter_yes I E p3 p2 p1 p0 q0 q1 q2 q3.
+Proof.
+  unfold go_needs_filter2, lf_filter_yes. rewrite needs_filter_eq.
+  destruct (lf_edge_ok E p1 p0 q0 q1); reflexivity.
+Qed.
+
+Definition adj_ok (a : Z) : bool :=
+  (gsclip2 (asr (a + 4) 3) =? asr (sc (sc a + 4)) 3) &&
+  (gsclip2 (asr (a + 3) 3) =? asr (sc (sc a + 3)) 3).
+
+Lemma adj_sweep : forallb adj_ok (zrange (-893) 1786) = true.
+Proof. vm_compute. reflexivity. Qed.
+
+Lemma adj_eq a : -893 <= a <= 892 ->
+  gsclip2 (asr (a + 4) 3) = asr (sc (sc a + 4)) 3 /\ gsclip2 (asr (a + 3) 3) = asr (sc (sc a + 3)) 3.
+Proof.
+  intros H.
+  pose proof (proj1 (forallb_forall _ _) adj_sweep a (in_zrange (-893) 1786 a ltac:(lia) ltac:(lia))) as Hx.
+  unfold adj_ok in Hx. apply andb_true_iff in Hx. destruct Hx as [H1 H2].
+  apply Z.eqb_eq in H1, H2. split; assumption.
+Qed.
+
+Definition w_ok (w : Z) : bool :=
+  (sc (asr (27 * w + 63) 7) =? asr (27 * w + 63) 7) &&
+  (sc (asr (18 * w + 63) 7) =? asr (18 * w + 63) 7) &&
+  (sc (asr (9 * w + 63) 7) =? asr (9 * w + 63) 7).
+Lemma w_sweep : forallb w_ok (zrange (-128) 256) = true.
+Proof. vm_compute. reflexivity. Qed.
+
+Lemma s2u_u2s p d : s2u (u2s p + d) = clamp255 (p + d).
+Proof.
+  unfold s2u, u2s, sc, clamp255, clampz.
+  destruct (p - 128 + d <? -128) eqn:E1; destruct (p + d <? 0) eqn:E2; try lia.
+  destruct (127 <? p - 128 + d) eqn:E3; destruct (255 <? p + d) eqn:E4; lia.
+Qed.
+
+Lemma s2u_u2s_sub p d : s2u (u2s p - d) = clamp255 (p - d).
+Proof. replace (u2s p - d) with (u2s p + - d) by lia. rewrite s2u_u2s. reflexivity. Qed.
+
+Lemma sc_range x : -128 <= sc x <= 127.
+Proof. apply clampz_range. lia. Qed.
+
+Lemma filter2_eq p1 p0 q0 q1 :
+  0 <= p1 <= 255 -> 0 <= p0 <= 255 -> 0 <= q0 <= 255 -> 0 <= q1 <= 255 ->
+  common_adjust true p1 p0 q0 q1 =
+  (fst (go_filter2 p1 p0 q0 q1), snd (go_filter2 p1 p0 q0 q1),
+   gsclip2 (asr (3 * (q0 - p0) + gsclip1 (p1 - q1) + 4) 3)).
+Proof.
+  intros H1 H2 H3 H4. unfold common_adjust, go_filter2. cbv zeta. cbn [fst snd].
+  replace (u2s p1 - u2s q1) with (p1 - q1) by (unfold u2s; lia).
+  replace (u2s q0 - u2s p0) with (q0 - p0) by (unfold u2s; lia).
+  change gsclip1 with sc.
+  replace (sc (p1 - q1) + 3 * (q0 - p0)) with (3 * (q0 - p0) + sc (p1 - q1)) by lia.
+  set (a := 3 * (q0 - p0) + sc (p1 - q1)).
+  assert (Ha : -893 <= a <= 892) by (pose proof (sc_range (p1 - q1)); unfold a; lia).
+  destruct (adj_eq a Ha) as [E4 E3]. rewrite <- E4, <- E3.
+  rewrite s2u_u2s, s2u_u2s_sub. reflexivity.
+Qed.
+
+Theorem simple_filter_eq : forall E l, bytes8 l -> go_simple_seg E l = lf_simple E l.
+Proof.
+  intros E l Hl. destruct (bytes8_inv l Hl) as (p3&p2&p1&p0&q0&q1&q2&q3&->&B3&B2&B1&B0&C0&C1&C2&C3).
+  unfold go_simple_seg, lf_simple, seg8, g. cbn [nth].
+  rewrite needs_filter_eq. destruct (lf_edge_ok E p1 p0 q0 q1); [|reflexivity].
+  rewrite (filter2_eq p1 p0 q0 q1 B1 B0 C0 C1).
+  destruct (go_filter2 p1 p0 q0 q1) as [x y]. reflexivity.
+Qed.
+
+Lemma filter6_eq p2 p1 p0 q0 q1 q2 :
+  0 <= p2 <= 255 -> 0 <= p1 <= 255 -> 0 <= p0 <= 255 -> 0 <= q0 <= 255 -> 0 <= q1 <= 255 -> 0 <= q2 <= 255 ->
+  go_filter6 p2 p1 p0 q0 q1 q2 =
+  (let P2 := u2s p2 in let P1 := u2s p1 in let P0 := u2s p0 in
+   let Q0 := u2s q0 in let Q1 := u2s q1 in let Q2 := u2s q2 in
+   let w := sc (sc (P1 - Q1) + 3 * (Q0 - P0)) in
+   let a1 := sc (asr (27 * w + 63) 7) in
+   let a2 := sc (asr (18 * w + 63) 7) in
+   let a3 := sc (asr (9 * w + 63) 7) in
+   [s2u (P2 + a3); s2u (P1 + a2); s2u (P0 + a1); s2u (Q0 - a1); s2u (Q1 - a2); s2u (Q2 - a3)]).
+Proof.
+  intros. unfold go_filter6. cbv zeta.
+  replace (u2s p1 - u2s q1) with (p1 - q1) by (unfold u2s; lia).
+  replace (u2s q0 - u2s p0) with (q0 - p0) by (unfold u2s; lia).
+  change gsclip1 with sc.
+  replace (sc (p1 - q1) + 3 * (q0 - p0)) with (3 * (q0 - p0) + sc (p1 - q1)) by lia.
+  set (w := sc (3 * (q0 - p0) + sc (p1 - q1))).
+  assert (Hw : -128 <= w <= 127) by apply sc_range.
+  pose proof (proj1 (forallb_forall _ _) w_sweep w (in_zrange (-128) 256 w ltac:(lia) ltac:(lia))) as Hx.
+  unfold w_ok in Hx. rewrite !andb_true_iff in Hx. destruct Hx as [[W1 W2] W3].
+  apply Z.eqb_eq in W1, W2, W3. rewrite W1, W2, W3.
+  rewrite !s2u_u2s, !s2u_u2s_sub. reflexivity.
+Qed.
+
+Theorem mbedge_filter_eq : forall E I T l, bytes8 l -> go_loop26_seg E I T l = lf_mbedge T I E l.
+Proof.
+  intros E I T l Hl. destruct (bytes8_inv l Hl) as (p3&p2&p1&p0&q0&q1&q2&q3&->&B3&B2&B1&B0&C0&C1&C2&C3).
+  unfold go_loop26_seg, lf_mbedge, seg8, g. cbn [nth].
+  rewrite needs_filter2_eq, hev_eq.
+  destruct (lf_filter_yes I E p3 p2 p1 p0 q0 q1 q2 q3); [|reflexivity].
+  destruct (lf_hev T p1 p0 q0 q1).
+  - rewrite (filter2_eq p1 p0 q0 q1 B1 B0 C0 C1).
+    destruct (go_filter2 p1 p0 q0 q1) as [x y]. reflexivity.
+  - rewrite (filter6_eq p2 p1 p0 q0 q1 q2 B2 B1 B0 C0 C1 C2). reflexivity.
+Qed.
+
+Lemma filter4_eq p1 p0 q0 q1 :
+  0 <= p1 <= 255 -> 0 <= p0 <= 255 -> 0 <= q0 <= 255 -> 0 <= q1 <= 255 ->
+  go_filter4 p1 p0 q0 q1 =
+  (let '(np0, nq0, a0) := common_adjust false p1 p0 q0 q1 in
+   let a := asr (a0 + 1) 1 in
+   (s2u (u2s p1 + a), np0, nq0, s2u (u2s q1 - a))).
+Proof.
+  intros H1 H2 H3 H4. unfold common_adjust, go_filter4. cbv zeta.
+  replace (u2s q0 - u2s p0) with (q0 - p0) by (unfold u2s; lia).
+  replace (0 + 3 * (q0 - p0)) with (3 * (q0 - p0)) by lia.
+  set (a := 3 * (q0 - p0)).
+  assert (Ha : -893 <= a <= 892) by (unfold a; lia).
+  destruct (adj_eq a Ha) as [E4 E3]. rewrite <- E4, <- E3.
+  rewrite !s2u_u2s, !s2u_u2s_sub. reflexivity.
+Qed.
+
+Theorem subblock_filter_eq : forall E I T l, bytes8 l -> go_loop24_seg E I T l = lf_subblock T I E l.
+Proof.
+  intros E I T l Hl. destruct (bytes8_inv l Hl) as (p3&p2&p1&p0&q0&q1&q2&q3&->&B3&B2&B1&B0&C0&C1&C2&C3).
+  unfold go_loop24_seg, lf_subblock, seg8, g. cbn [nth].
+  rewrite needs_filter2_eq, hev_eq.
+  destruct (lf_filter_yes I E p3 p2 p1 p0 q0 q1 q2 q3); [|reflexivity].
+  destruct (lf_hev T p1 p0 q0 q1).
+  - rewrite (filter2_eq p1 p0 q0 q1 B1 B0 C0 C1).
+    destruct (go_filter2 p1 p0 q0 q1) as [x y]. reflexivity.
+  - rewrite (filter4_eq p1 p0 q0 q1 B1 B0 C0 C1).
+    destruct (common_adjust false p1 p0 q0 q1) as [[x y] z]. reflexivity.
+Qed.
+
+Example bytes8_example : bytes8 [10; 20; 30; 120; 140; 33; 22; 11].
+Proof. split; [reflexivity|]. repeat constructor; lia. Qed.
+
+(** Hypotheses of nz_code_sound are met by a non-trivial block (end of block at 3). *)
+Example nz_code_example :
+  let c := [7; -3; 0; 0; 12; 0; 0; 0; 0; 0; 0; 0; 0; 0; 0; 0] in
+  (forall n, 3 <= n < 16 -> nthZ c (nthZ zigzag n 0) 0 = 0) /\ go_nz_code 3 true = 2.
+Proof.
+  split; [|reflexivity]. intros n Hn.
+  assert (H : n = 3 \/ n = 4 \/ n = 5 \/ n = 6 \/ n = 7 \/ n = 8 \/ n = 9 \/ n = 10 \/ n = 11 \/
+              n = 12 \/ n = 13 \/ n = 14 \/ n = 15) by lia.
+  repeat (destruct H as [->|H]; [reflexivity|]). subst n. reflexivity.
+Qed.
